@@ -145,13 +145,18 @@ def scan_spec(draw, cell):
         if abs(end[0] - start[0]) + abs(end[1] - start[1]) < 0.05:
             # a zero-length line has no direction: not a scan abTEM documents
             end = [round(start[0] + 0.5 * a, 3), round(start[1] + 0.25 * b, 3)]
-        return {"kind": "line", "start": start, "end": end, "gpts": draw(st.integers(1, 5)), "endpoint": draw(st.booleans())}
+        n = draw(st.integers(1, 5))
+        return {"kind": "line", "start": start, "end": end, "gpts": n, "endpoint": draw(st.booleans()) and n > 1}
+    gpts = [draw(st.integers(1, 4)), draw(st.integers(1, 4))]
+    # a one-point axis that must also end on the end point is contradictory (its sampling
+    # is 0/0; abTEM rejects the zero-extent sub-scans it leads to): endpoint only for >=2
+    endpoint = [draw(st.booleans()) and n > 1 for n in gpts]
     return {
         "kind": "grid",
         "start": [0.0, 0.0],
         "end": [round(draw(gen.floats(0.2, 1)) * a, 3), round(draw(gen.floats(0.2, 1)) * b, 3)],
-        "gpts": [draw(st.integers(1, 4)), draw(st.integers(1, 4))],
-        "endpoint": [draw(st.booleans()), draw(st.booleans())],
+        "gpts": gpts,
+        "endpoint": endpoint,
     }
 
 
